@@ -745,6 +745,13 @@ func (c *HttpClient) parseIPCStream(raw *bytes.Reader, expected *arrow.Schema, t
 	}
 	defer reader.Release()
 	if expected != nil && !clientSchemasEqual(reader.Schema(), expected) {
+		// A failure raised before the method's own schema is in play (a stream
+		// init handler error, a request-level refusal) travels under the empty
+		// schema. The EXCEPTION batch is the response: surface the server's
+		// error rather than a schema complaint about its envelope.
+		if rpcErr := exceptionInStream(reader); rpcErr != nil {
+			return nil, rpcErr
+		}
 		return nil, &RpcError{Type: "TypeError", Message: fmt.Sprintf("response schema mismatch: expected %s, got %s", expected, reader.Schema())}
 	}
 	parsed := &parsedClientStream{}
@@ -788,6 +795,19 @@ func (c *HttpClient) parseIPCStream(raw *bytes.Reader, expected *arrow.Schema, t
 		return nil, &RpcError{Type: "ProtocolError", Message: fmt.Sprintf("read Arrow IPC response batch: %v", err)}
 	}
 	return parsed, nil
+}
+
+// exceptionInStream scans the remaining batches of a response stream whose
+// schema was not the declared one and returns the server's EXCEPTION, if any.
+func exceptionInStream(reader *ipc.Reader) *RpcError {
+	for reader.Next() {
+		record := reader.RecordBatch()
+		metadata := recordMetadata(record)
+		if record.NumRows() == 0 && metadata[MetaLogLevel] == string(LogException) {
+			return rpcErrorFromMetadata(metadata)
+		}
+	}
+	return nil
 }
 
 func clientSchemasEqual(left, right *arrow.Schema) bool {
